@@ -7,4 +7,4 @@
   table_alias_rows, table_jump_rows
 -/
 import NakenVerif.Riscv.Props
-import NakenVerif.Msp430.RoundTrip
+import NakenVerif.Msp430.Fixpoint
